@@ -23,7 +23,7 @@ def run_config(chk, tier, cfgname):
               for o in r.outs if o.kind == "unwind")
     chk.floor("unwind-outcomes-explored", nun, 40)
     common.protocol_rows(chk, prog, "protocol-on-unwind", ["collect_debt", "finish_marking", "finish_cycle"],
-                         per_method=False)
+                         per_method=False, aspects=("safety", "walk"))
     typestate.report_automaton(chk, ["S6", "S7"])
     from gcv import rules_ctor
     rules_ctor.run(chk, prog, T)
